@@ -139,7 +139,7 @@ class IndBase(Contract):
             for t in tasks:
                 bs, be = busy(w, t)
                 rest += [bs == t._start, be == t._end, Implies(spec.sched(t), t._end > t._start)]
-                known += [bs.decl().name(), be.decl().name()]
+                known += [bs, be]
             for a, b in itertools.combinations(tasks, 2):
                 rest.append(Implies(And(spec.sched(a), spec.sched(b)), spec.disjoint(a._start, a._end, b._start, b._end)))
         aux = fresh_consts(A, tasks, pb, extra_known=known)
